@@ -25,12 +25,30 @@ ASSUMPTIONS = [
     "come back as Err), observers on the assigned globals, RESET, same lock-step; LIST programs: history (+ path jump), "
     "RESET, then the same walk or a jump to every knot / stitch, text + variables + counts + save dump after every line "
     "against a fresh instance",
-    "LIST programs avoid the forms of finding c17-empty-list-value-shared (a bare variable / literal-returning call on "
-    "the right of a list assignment, `~ temp t = ()` declarations): gen_ink.listify(list_alias=0)",
+    "LIST programs include the forms in which several holders share one empty list value (a bare variable / "
+    "literal-returning call on the right of a list assignment, `~ temp t = ()` declarations): the defect repaired by "
+    "abbdf69 (origins written into the shared value survived reset_state) showed only there",
 ]
 
 # regression corpus of the list part (played IN ADDITION to the generated list programs)
 LIST_REGRESSION = [
+    # the shared empty list value (repaired by abbdf69): `La = e` wrote La's origins into the value `e` holds, which
+    # is also the declared default that reset_state puts back
+    """LIST La = (a0), a1
+LIST Lb = b0, b1
+VAR e = ()
+-> top
+=== top ===
+Start.
+* [x]
+  ~ La = e
+  ~ Lb = e
+  X {LIST_INVERT(e)}.
+  -> END
+* [y]
+  Y {LIST_INVERT(e)} {LIST_ALL(e)}.
+  -> END
+""",
     # an empty-list literal assigned over a typed list and, after the reset, over the untyped default
     """LIST Items = sword, shield, potion
 VAR inventory = ()
